@@ -15,7 +15,7 @@ func init() {
 		NotDecided: "that acknowledged writes survive arbitrary interleavings (needs executions); RemoveKeys errors are only logged.",
 		Run:        runC03})
 	register(&propDef{ID: "C04", Level: "other",
-		Decides:    "the locking/state gate linearizability relies on: every use of LocalNode.kv is one of the enumerated gated sites - kvMiddleware's local branch (surrogateMu and predecessorMu read-held, state==Active on every path), the replication bypass (only under the KV_REPLICATION request target), ListKeys' direct-target branch (surrogateMu read-held, Active), Import (surrogateMu write-held), the transfer functions (caller holds surrogateMu for writing), or the read-only stats handler; refusals at the gate are retryable sentinels and ErrNodeGone from the lookup is mapped to ErrKVStaleOwnership; the ten KV methods all route through kvMiddleware with their own key and call the same-named backend method with their own arguments in order.",
+		Decides:    "the locking/state gate linearizability relies on: every use of LocalNode.kv is one of the enumerated gated sites - kvMiddleware's local branch (surrogateMu and predecessorMu read-held, state==Active on every path), the replication bypass (only under the KV_REPLICATION request target), ListKeys' direct-target branch (surrogateMu read-held, Active), Import (surrogateMu write-held), the transfer functions (caller holds surrogateMu for writing), or the read-only stats handler; refusals at the gate are retryable sentinels and ErrNodeGone from the lookup is mapped to ErrKVStaleOwnership; the ten KV methods all route through kvMiddleware with their own key and call the same-named backend method with their own arguments in order; the maintenance paths (Notify, checkPredecessor) write the predecessor / surrogate pointers, which decide where a request is served, only by compare-and-set against the snapshot they decided on, inside one critical section.",
 		NotDecided: "linearizability of histories.",
 		Run:        runC04})
 	register(&propDef{ID: "C06", Level: "other",
@@ -36,6 +36,7 @@ func init() {
 		mutation{"remove-other-keys", "chord/local_chord.go", "	if err := n.kv.RemoveKeys(ctx, keys); err != nil {\n		n.logger.Error(\"Failed to remove keys from KV\", zap.Error(err))\n	}\n	return\n}", "	if all, rerr := n.kv.RangeKeys(ctx, 0, 0); rerr == nil {\n		n.kv.RemoveKeys(ctx, all)\n	}\n	return\n}", "same-keys"},
 	)
 	addSelfTests("C04",
+		mutation{"dead-predecessor-cleared-unconditionally", "chord/local_tasks.go", "		if n.predecessor == pre {\n			n.predecessor = nil\n			n.logger.Info(\"Discovered dead predecessor\",\n				zap.Object(\"old\", pre.Identity()),\n				zap.String(\"new\", \"nil\"),\n			)\n		}", "		n.predecessor = nil\n		n.logger.Info(\"Discovered dead predecessor\",\n			zap.Object(\"old\", pre.Identity()),\n			zap.String(\"new\", \"nil\"),\n		)", "snapshot-cas"},
 		mutation{"state-gate-dropped", "chord/local_kv.go", "	if state != chord.Active {\n		l.Debug(", "	if state == chord.Inactive {\n		l.Debug(", "kv-gate"},
 		mutation{"gate-refusal-nonretryable", "chord/local_kv.go", "		n.kvStaleCount.Inc()\n		return zeroV, chord.ErrKVStaleOwnership\n	}\n\n	if n.surrogate != nil {", "		n.kvStaleCount.Inc()\n		return zeroV, chord.ErrNodeGone\n	}\n\n	if n.surrogate != nil {", "gate-refusal"},
 		mutation{"unlock-before-handler", "chord/local_kv.go", "	n.predecessorMu.RLock()\n	defer n.predecessorMu.RUnlock()\n\n	if n.predecessor != nil {\n		l = l.With", "	n.predecessorMu.RLock()\n	n.predecessorMu.RUnlock()\n\n	if n.predecessor != nil {\n		l = l.With", "kv-gate"},
@@ -322,6 +323,7 @@ func runC03(c *Ctx) {
 // ---------------------------------------------------------------------------------------
 
 func runC04(c *Ctx) {
+	snapshotCASRule(c)
 	uses := 0
 	stateActive := func(g *Fn, fs *FactSet) bool {
 		return fs.Cmp(func(e, tag ast.Expr, truth bool, fa *Fact) bool {
